@@ -3,6 +3,7 @@ From Coq Require Import List NArith ZArith Bool.
 From Coq Require Import Strings.Byte.
 From NfpmV Require Import Lib.Bytes Model.Path Model.Content Model.Prepare Model.Payload Spec.C05 Spec.C01 Spec.C08.
 From NfpmV Require Import Proofs.KeyFacts Proofs.StepInv Proofs.C01Proofs Proofs.C08Proofs.
+From NfpmV Require Import Model.DebLists Proofs.DebListsProofs.
 Import ListNotations.
 
 (* deb / ipk: a path is listed in conffiles iff a config, config|noreplace or config|missingok entry is
@@ -32,3 +33,10 @@ Theorem C08_glob_inherits_type :
   c_typ v = TSymlink \/ c_typ v = TFile \/ c_typ v = c_typ orig.
 Proof. exact (fun st umask mt orig g dst D => proj2 (proj2 (proj2 (globbed_file_facts st umask mt orig g dst D)))). Qed.
 Print Assumptions C08_glob_inherits_type.
+
+(* the conffiles member as text (Model/DebLists.v): one path per line, a single blank line when there is none - the
+   reader (which skips blank lines, as dpkg does) gets back the paths, in order, for any non-empty paths without a newline *)
+Theorem C08_conffiles_text_roundtrip : forall ps,
+  Forall (fun p => line_ok p = true /\ nonblank p = true) ps -> conffiles_read (conffiles_text ps) = Some ps.
+Proof. exact conffiles_roundtrip. Qed.
+Print Assumptions C08_conffiles_text_roundtrip.
